@@ -10,6 +10,9 @@ use ast_grep_core::language::Language;
 use schemars::JsonSchema;
 use serde::{Deserialize, Serialize};
 
+#[cfg(feature = "verif-hooks")]
+use crate::verif_hooks::SMap as HashMap;
+#[cfg(not(feature = "verif-hooks"))]
 use std::collections::HashMap;
 
 #[derive(Serialize, Deserialize, Clone, JsonSchema)]
